@@ -220,7 +220,8 @@ def make_case(idx, tests):
     return {'idx': idx, 'mode': mode, 'rows': rows, 'cols': cols, 'files': files, 'args': args, 'data': data}
 
 
-def execute(vi, case, timeout=25, msan=False):
+def execute(vi, case, timeout=25, msan=False, idle=None):
+    """idle=None: plain wall-clock timeout; otherwise progress-based (returns (Result, state, commands))"""
     d = common.case_dir('f')
     os.chmod(d, 0o777)
     common.write_files(d, case['files'])
@@ -236,7 +237,10 @@ def execute(vi, case, timeout=25, msan=False):
         argv, data = [vi, '-s', '-e'], case['data'] + b'\n' + common.EX_QUIT
     else:
         argv, data = [vi, '-e'], case['data'] + b'\n\x1b\n' + b'\x05.\n\x05q!\n' * 150   # ^E: a :cm may have switched the prompt keymap
-    r = common.run(argv + case['args'], data, d, env, timeout, preexec=drop_priv)
+    if idle is None:
+        r = common.run(argv + case['args'], data, d, env, timeout, preexec=drop_priv)
+    else:
+        r = common.run_progress(argv + case['args'], data, d, env, idle=idle, total=timeout, preexec=drop_priv)
     common.rmcase(d)
     return r
 
@@ -247,14 +251,19 @@ def run_case(args):
     case = make_case(idx, tests)
     r = execute(vi, case, msan=msan)
     if r.timed_out:
-        r2 = execute(vi, case, timeout=100, msan=msan)     # re-run once with a 4x budget
-        if r2.timed_out:
-            # slow is not stuck: big counts on growing lines cost quadratic time, 5-10x more under a sanitizer.  The arbiter is
-            # the uninstrumented build with a 300 s budget; a stream that ends there is counted as slow, not as a hang.
-            r3 = execute(common.build('plain'), case, timeout=300)
-            if r3.timed_out:
+        # slow is not stuck (big counts on growing lines cost quadratic time; a register that runs itself never ends): the verdict
+        # is based on progress.  The editor reports every executed command (hook); "stuck" = no command finished for 60 s under
+        # the sanitizer AND, in a second run, for 120 s in the uninstrumented build.  Still executing commands at the end of
+        # the budget = "slow" (counted, no verdict).
+        r2, state, ncmd = execute(vi, case, timeout=150, msan=msan, idle=60)
+        if state == 'stuck':
+            r3, state3, ncmd3 = execute(common.build('plain'), case, timeout=300, idle=120)
+            if state3 == 'stuck':
+                r3.err = (r3.err or b'') + b'[%d commands executed before the last one never returned]' % ncmd3
                 return ('hang', case, r3)
             return ('slow', case, r3)
+        if state == 'running':
+            return ('slow', case, r2)
         r = r2
     rep = common.san_report(r)
     if rep is None and (r.rc == 97 or b'MemorySanitizer' in r.err):
@@ -305,10 +314,10 @@ def run(tier, V):
             continue
         wit = {'mode': case['mode'], 'rows': case['rows'], 'cols': case['cols'], 'args': case['args'], 'files': case['files'], 'stream': case['data'], 'seed_index': case['idx']}
         if key == 'hang':
-            V.violation('hang:' + stream_class(case), 'editor did not reach the quit at the end of the stream within 25 s, 100 s (sanitizer build) and 300 s (plain build): mode %s stream %s' % (case['mode'], common.show(case['data'], 200)), wit)
+            V.violation('hang:' + stream_class(case), 'editor did not reach the quit at the end of the stream one command never returned (no command finished for 60 s in the sanitizer build and for 120 s in the plain build): mode %s stream %s' % (case['mode'], common.show(case['data'], 200)), wit)
         else:
             V.violation(key, 'mode %s window %dx%d stream %s :: %s' % (case['mode'], case['rows'], case['cols'], common.show(case['data'], 160), summarize(r.err)), wit)
-    cov = {'slow_streams_finished_only_by_the_plain_build': slow, 'msan_streams': nm, 'evaluations': n + nm, 'distinct_nontrivial': n + nm, 'streams_by_mode': modes, 'window_sizes_seen': sorted(wins), 'stream_bytes': nbytes,
+    cov = {'slow_streams_still_making_progress_at_the_budget': slow, 'msan_streams': nm, 'evaluations': n + nm, 'distinct_nontrivial': n + nm, 'streams_by_mode': modes, 'window_sizes_seen': sorted(wins), 'stream_bytes': nbytes,
            'test_scripts_used_as_seeds': len(tests), 'odd_seeds': len(VI_ODD) + len(EX_MISC),
            'rule': ('%d streams: vi grammar programs, ex grammar programs, hand-written odd-but-legal seeds, 1%% filters/pipe writes of 100-500 KB buffers through commands that exit early, 5%% capacity streams (17+ buffers, 128-byte indents, 512-byte ex lines, 120-byte words, 1 KiB paths, 4 KiB registers, many splits, 64+ groups), mutations (truncate/splice/duplicate/swap/insert valid UTF-8) of those and of the %d test scripts; '
                     'x 30%% file names of the other file types (c, sh, go, py, roff, tex, mk, diff, mail, bib, nm, ls: their highlight, definition and section patterns) with code-like lines x random buffers (ASCII, multi-byte, wide, combining, RTL, long lines, empty, no final newline) x window sizes 2x2..60x200 x -v / -s -e / -e, run as uid nobody under ASan+UBSan (and a further slice under MemorySanitizer) with a whitelist shell. '
